@@ -71,7 +71,17 @@ impl Prop for C10 {
         let rng = Rng::new(seed);
         let p = profile(&mut rng.derive("profile"));
         let mut g = Gen::new(rng.derive("workload"), &p);
-        case_of(&g.scenario())
+        let mut sc = g.scenario();
+        // reads against a database that has no block yet
+        let mut r = rng.derive("early");
+        if r.chance(1, 4) {
+            let n = r.range(1, 3);
+            for _ in 0..n {
+                let rd = g.read_op();
+                sc.ops.insert(0, Op::Read(rd));
+            }
+        }
+        case_of(&sc)
     }
     fn rule(&self) -> String {
         "case = seeded history with read requests (eth_call incl. creations, eth_callMany with state carry-over / failing element / overrides, eth_estimateGas(Many), brc20_balance, getters; all executing state-mutating bytecode from the contract library) after every block and non-executing getters mid-block, on replica A; replica B runs the history without them. Oracles: obs before == obs after each read; every non-read call result equal on A and B; sampled boundary obs equal; after a final commit on both the 16 RocksDB directories are dumped and compared key by key (mineTimestamp masked). distinct = sha256 of op list; non-trivial = at least one executing read ran state-mutating code and was compared".into()
